@@ -77,6 +77,15 @@ func (t *tbl) Call(ip *absint.Interp, site ssa.CallInstruction, args []absint.Va
 		if h, ok := t.invokeN[com.Method.Name()]; ok {
 			return h(ip, args), true
 		}
+		// an internal seam (unexported interface with one implementation): the call is the implementation's
+		if impl := t.c.InternalImpl(com); impl != nil {
+			if h, ok := t.callee[impl]; ok {
+				return h(ip, args), true
+			}
+			if ip.InScope == nil || ip.InScope(impl) {
+				return ip.CallFunction(impl, args, nil), true
+			}
+		}
 		switch com.Method.Name() {
 		case "String", "Error", "Name":
 			if com.Signature().Params().Len() == 0 && com.Signature().Results().Len() == 1 {
@@ -322,4 +331,49 @@ func smallModelCheck(c *core.Ctx, r *core.Report, rule, cons string, fn *ssa.Fun
 	} else {
 		r.Hold(rule, cons+":small-model", c.FnPos(fn), fmt.Sprintf("no length/counter threshold above the table bound %d in the subject and its in-scope callees (%d functions): behaviour beyond the bound is uniform", bound, len(seen)))
 	}
+}
+
+// valueOfType finds the abstract value that plays Go type t: what pick knows, or - for an unexported struct type (or a
+// pointer to one) that pick does not know, i.e. a parameter object introduced by the code under analysis - a fresh
+// object whose fields are filled the same way.
+func valueOfType(t types.Type, pick func(types.Type) absint.Value, depth int) absint.Value {
+	if v := pick(t); v != nil {
+		return v
+	}
+	et := t
+	if pt, ok := t.Underlying().(*types.Pointer); ok {
+		et = pt.Elem()
+		if v := pick(et); v != nil {
+			return v
+		}
+	}
+	n := core.NamedOf(et)
+	st, isStruct := et.Underlying().(*types.Struct)
+	if isStruct && depth < 2 && (n == nil || !n.Obj().Exported()) {
+		id := "paramobj"
+		if n != nil {
+			id = n.Obj().Name()
+		}
+		tok := absint.NewTok(id, "parameter-object")
+		for i := 0; i < st.NumFields(); i++ {
+			if fv := valueOfType(st.Field(i).Type(), pick, depth+1); fv != nil {
+				tok.Fields[st.Field(i).Name()] = fv
+			}
+		}
+		return tok
+	}
+	return nil
+}
+
+// layoutArgs lays abstract values out along fn's parameters (receiver included).
+func layoutArgs(fn *ssa.Function, pick func(types.Type) absint.Value) []absint.Value {
+	var args []absint.Value
+	for _, p := range fn.Params {
+		v := valueOfType(p.Type(), pick, 0)
+		if v == nil {
+			v = absint.NewTok("arg:"+p.Name(), "arg")
+		}
+		args = append(args, v)
+	}
+	return args
 }
